@@ -52,20 +52,24 @@ End C11_field.
 Section C11_any.
   Context {K : Type} (N : Num K).
 
-  (* what the subdivision guarantees about a reported pair, for any fuel, any
-     bbox function and BOTH variants of the redundancy loop (rm_fixed = false: the
-     pinned remove-while-iterating code; true: the proposed repair): it is the centre pair of two sub-curves (k halvings each)
-     whose boxes intersect and both have area < tol_deC.  NOTE: a distance bound
-     |B1(t1) - B2(t2)| <= c does NOT follow: a box of area < tol can be
-     arbitrarily long (see C11_small_area_long_box below). *)
-  Theorem C11_subdiv_witness : forall rm_fixed bbox tol tol_deC bez1 bez2 maxits res,
-      bezier_intersections N rm_fixed bbox tol tol_deC bez1 maxits bez2 = IOk res ->
+  (* what the subdivision guarantees about a reported pair, for any fuel, any bbox
+     function and ALL variants (rm_fixed: redundancy loop pinned/repaired; mg_fixed:
+     with/without merging of neighbouring solutions; bx_fixed = false: open boxes, stop
+     on box AREA < tol_deC; bx_fixed = true: closed boxes, stop on box EXTENT < ext):
+     it is the centre pair of two sub-curves (k halvings each) whose boxes intersect and
+     are both small in the sense of the variant.  NOTE: in the pinned variant a distance
+     bound |B1(t1) - B2(t2)| <= c does NOT follow: a box of area < tol can be arbitrarily
+     long (C11_small_area_long_box); in the repaired one it does (C11_subdiv_distance_fixed). *)
+  Theorem C11_subdiv_witness : forall rm_fixed bx_fixed mg_fixed bbox tol tol_deC ext bez1 bez2 maxits res,
+      bezier_intersections N rm_fixed bx_fixed mg_fixed bbox tol tol_deC ext bez1 maxits bez2 = IOk res ->
       forall tt, In tt res ->
       exists b1 b2 k,
         sub_of N bez1 b1 (fst tt) k /\ sub_of N bez2 b2 (snd tt) k
-        /\ boxes_intersect N (bbox b1) (bbox b2) = true
-        /\ ltb N (box_area N (bbox b1)) tol_deC = true
-        /\ ltb N (box_area N (bbox b2)) tol_deC = true.
+        /\ if bx_fixed
+           then boxes_intersect_closed N (bbox b1) (bbox b2) = true
+                /\ ltb N (box_extent N (bbox b1)) ext = true /\ ltb N (box_extent N (bbox b2)) ext = true
+           else boxes_intersect N (bbox b1) (bbox b2) = true
+                /\ ltb N (box_area N (bbox b1)) tol_deC = true /\ ltb N (box_area N (bbox b2)) tol_deC = true.
   Proof. exact (subdiv_witness N). Qed.
 
   (* operand exchange for the kind pairs routed to one core routine *)
@@ -79,8 +83,8 @@ Section C11_any.
      reported (t1,t2) of that segment pair; T is t2T of pos_of: the index of the
      FIRST EQUAL segment in the pinned variant (idx_fixed = false), the position
      itself in the repaired one (idx_fixed = true) *)
-  Theorem C11_path_coherent : forall seg_isect seg_point tol idx_fixed p1 lens1 p2 lens2 res,
-      path_intersect N seg_isect seg_point tol idx_fixed p1 lens1 p2 lens2 = IOk res ->
+  Theorem C11_path_coherent : forall seg_isect seg_point tol idx_fixed jd_fixed plen1 plen2 eps9 p1 lens1 p2 lens2 res,
+      path_intersect N seg_isect seg_point tol idx_fixed jd_fixed plen1 plen2 eps9 p1 lens1 p2 lens2 = IOk res ->
       forall e, In e res ->
       exists i j s1 s2 t1 t2 l,
         nth_error p1 i = Some s1 /\ nth_error p2 j = Some s2 /\ seg_isect s1 s2 = IOk l /\ In (t1, t2) l
@@ -117,8 +121,8 @@ Theorem C11_bezier_line_residual_partial : forall len bez l0 l1 roots t lt r eps
      <= lipM (bl_coeffs_y NumR len bez l0 l1) * eps)%R.
 Proof. exact bezier_line_residual_lipschitz. Qed.
 (* reported parameters of the subdivision: odd multiples of 2^-(k+1), inside (0,1) *)
-Theorem C11_subdiv_range : forall rm_fixed bbox tol tol_deC bez1 bez2 maxits res,
-    bezier_intersections NumR rm_fixed bbox tol tol_deC bez1 maxits bez2 = IOk res ->
+Theorem C11_subdiv_range : forall rm_fixed bx_fixed mg_fixed bbox tol tol_deC ext bez1 bez2 maxits res,
+    bezier_intersections NumR rm_fixed bx_fixed mg_fixed bbox tol tol_deC ext bez1 maxits bez2 = IOk res ->
     forall t1 t2, In (t1, t2) res ->
     exists k, dyadic_odd t1 k /\ dyadic_odd t2 k /\ (0 < t1 < 1)%R /\ (0 < t2 < 1)%R.
 Proof. exact subdiv_range. Qed.
@@ -128,10 +132,10 @@ Proof. exact subdiv_range. Qed.
    two boxes — while the stopping rule only bounds their AREAS (< tol_deC); so
    |B1(t1) - B2(t2)| <= 1e-5 x size is not a consequence (and fails on the code
    for small curves: key subdivision-residual-small-scale in tools/harness/c11.py) *)
-Theorem C11_subdiv_distance_partial : forall rm_fixed bbox tol tol_deC bez1 bez2 maxits res,
+Theorem C11_subdiv_distance_partial : forall rm_fixed mg_fixed bbox tol tol_deC ext bez1 bez2 maxits res,
     deg23 bez1 -> deg23 bez2 ->
     (forall b s, deg23 b -> (0 <= s <= 1)%R -> inbox (bbox b) (bezier_point NumR b s)) ->
-    bezier_intersections NumR rm_fixed bbox tol tol_deC bez1 maxits bez2 = IOk res ->
+    bezier_intersections NumR rm_fixed false mg_fixed bbox tol tol_deC ext bez1 maxits bez2 = IOk res ->
     forall t1 t2, In (t1, t2) res ->
     exists b1 b2,
       let '(x1, X1, y1, Y1) := bbox b1 in
@@ -140,6 +144,16 @@ Theorem C11_subdiv_distance_partial : forall rm_fixed bbox tol tol_deC bez1 bez2
        /\ Rabs (im (bezier_point NumR bez1 t1) - im (bezier_point NumR bez2 t2)) <= (Y1 - y1) + (Y2 - y2)
        /\ (X1 - x1) * (Y1 - y1) < tol_deC /\ (X2 - x2) * (Y2 - y2) < tol_deC)%R.
 Proof. exact subdiv_distance_partial. Qed.
+(* REPAIRED stopping rule (bx_fixed = true, fixes/C12-subdivision-closed-boxes-extent.diff):
+   the two reported points differ by less than 2 ext in each coordinate *)
+Theorem C11_subdiv_distance_fixed : forall rm_fixed mg_fixed bbox tol tol_deC ext bez1 bez2 maxits res,
+    deg23 bez1 -> deg23 bez2 ->
+    (forall b s, deg23 b -> (0 <= s <= 1)%R -> inbox (bbox b) (bezier_point NumR b s)) ->
+    bezier_intersections NumR rm_fixed true mg_fixed bbox tol tol_deC ext bez1 maxits bez2 = IOk res ->
+    forall t1 t2, In (t1, t2) res ->
+      (Rabs (re (bezier_point NumR bez1 t1) - re (bezier_point NumR bez2 t2)) < 2 * ext
+       /\ Rabs (im (bezier_point NumR bez1 t1) - im (bezier_point NumR bez2 t2)) < 2 * ext)%R.
+Proof. exact subdiv_distance_fixed. Qed.
 
 (* ---------------- witnesses computed in exact rationals ---------------- *)
 Definition q (n : Z) (d : positive) : Qc := qc n d.
@@ -154,7 +168,7 @@ Example C11_line_line_example :
 Proof. vm_compute. reflexivity. Qed.
 (* non-vacuity: the worklist machine reports two crossings of two parabolas *)
 Example C11_subdiv_example :
-  imap (@length _) (bezier_intersections NumQ false (bbox_quad NumQ) tol12 tol12
+  imap (@length _) (bezier_intersections NumQ false false false (bbox_quad NumQ) tol12 tol12 tol12
                       [zc 0 0; zc 18 36; zc 36 0] 60 [zc 0 32; zc 18 (-4); zc 36 32]) = IOk 2%nat.
 Proof. vm_compute. reflexivity. Qed.
 
@@ -182,7 +196,7 @@ Definition probe : list (seg Qc) := [SLine (zc 1 (-1)) (zc 1 1)].
 
 Example C11_path_index_duplicate_refuted :
   exists e1 e2,
-    path_intersect NumQ isect_lines lines_point (q 0 1) false tri_twice tri_lens probe [q 1 1] = IOk [e1; e2]
+    path_intersect NumQ isect_lines lines_point (q 0 1) false false (q 15 1) (q 2 1) (q 1 1000000000) tri_twice tri_lens probe [q 1 1] = IOk [e1; e2]
     /\ Qc_eq_bool (fst (fst (fst e2))) (q 1 15) = true               (* reported T1 of the 2nd traversal *)
     /\ Qc_eq_bool (t2T NumQ tri_lens 3 (snd (fst e2))) (q 13 15) = true  (* T1 of the position it came from *)
     /\ nth_error tri_twice 3 = Some (snd (fst (fst e2))).
@@ -190,7 +204,7 @@ Proof. eexists; eexists. vm_compute. repeat split; reflexivity. Qed.
 (* the same call in the repaired variant (enumerate instead of index()): T1 = 13/15 *)
 Example C11_path_index_duplicate_fixed :
   exists e1 e2,
-    path_intersect NumQ isect_lines lines_point (q 0 1) true tri_twice tri_lens probe [q 1 1] = IOk [e1; e2]
+    path_intersect NumQ isect_lines lines_point (q 0 1) true false (q 15 1) (q 2 1) (q 1 1000000000) tri_twice tri_lens probe [q 1 1] = IOk [e1; e2]
     /\ Qc_eq_bool (fst (fst (fst e1))) (q 1 15) = true
     /\ Qc_eq_bool (fst (fst (fst e2))) (q 13 15) = true.
 Proof. eexists; eexists. vm_compute. repeat split; reflexivity. Qed.
@@ -210,5 +224,6 @@ Print Assumptions C11_line_line_swap.
 Print Assumptions C11_bezier_line_residual_partial.
 Print Assumptions C11_subdiv_range.
 Print Assumptions C11_subdiv_distance_partial.
+Print Assumptions C11_subdiv_distance_fixed.
 Print Assumptions C11_path_index_duplicate_refuted.
 Print Assumptions C11_path_index_duplicate_fixed.
